@@ -115,8 +115,49 @@ func init() {
 			return res.write(*c.out)
 		}
 		orderParsed(res)
+		orderTies(res, "C13")
 		return orderRest(res, c, S, less, obs)
 	})
+}
+
+// orderTies: two classes that the relevance comparison cannot tell apart (the same frames, other
+// argument values) with every distribution of four goroutines over them: whatever breaks the tie,
+// it must be a total, repeatable choice - the same order on every aggregation.
+func orderTies(res *Result, prop string) {
+	for mask := 1; mask < 15; mask++ {
+		var sb strings.Builder
+		sb.WriteString("goroutine 1 [running]:\nmain.main()\n\t/w/app/main.go:9 +0x1\n")
+		for k := 0; k < 4; k++ {
+			fmt.Fprintf(&sb, "\ngoroutine %d [chan receive]:\nmain.worker(0x%d)\n\t/w/app/worker.go:12 +0x1\ncreated by main.main\n\t/w/app/main.go:7 +0x1\n", k+2, 1+(mask>>uint(k))&1)
+		}
+		text := sb.String()
+		func() {
+			defer func() {
+				if r := recover(); r != nil {
+					res.violation(Finding{Property: prop, Aspect: "panic", What: fmt.Sprintf("aggregating tying buckets panicked: %v", r), Case: text})
+				}
+			}()
+			snap, _, _ := stack.ScanSnapshot(strings.NewReader(text), io.Discard, &stack.Opts{})
+			if snap == nil || len(snap.Goroutines) != 5 {
+				return
+			}
+			first := ""
+			for rep := 0; rep < 80; rep++ {
+				a := snap.Aggregate(stack.ExactFlags)
+				o := ""
+				for _, b := range a.Buckets {
+					o += fmt.Sprint(b.IDs)
+				}
+				if first == "" {
+					first = o
+				} else if o != first {
+					res.violation(Finding{Property: prop, Aspect: "ties", What: fmt.Sprintf("two buckets that rank equally (same frames, other argument values; %d goroutines) are shown as %s and as %s on repeated aggregations of one snapshot: the order is not a function of the snapshot", 5, first, o), Case: text, Input: []byte(text)})
+					return
+				}
+			}
+			res.count("tie_distributions_checked", 1)
+		}()
+	}
 }
 
 // orderParsed observes the contract on parsed dumps: which frames count as code of package main is
